@@ -962,4 +962,132 @@ fn main() {
 
 // ------------------------------------------------------------------ tie of the modelled primitives
 
-fn tie(_n: usize, _seed: u64) {}
+fn mv(v: &Value) -> String {
+    let (b, u, d) = uiua::verif::flags(v);
+    format!("(MV {} (FL {b} {u} {d}))", coq_value(v))
+}
+
+const CONCRETE: [(&str, &str, usize); 10] = [
+    ("CReverse", "⇌", 1),
+    ("CFirst", "⊢", 1),
+    ("CLast", "⊣", 1),
+    ("CFix", "¤", 1),
+    ("CDeshape", "♭", 1),
+    ("CSort", "⍆", 1),
+    ("CSortDown", "⇌⍆", 1),
+    ("CNeg", "¯", 1),
+    ("CCouple", "⊟", 2),
+    ("CRange", "⇡", 1),
+];
+const RULES: [(&str, &str, usize); 15] = [
+    ("RClassify", "⊛", 1),
+    ("RTranspose", "⍉", 1),
+    ("RWhere", "⊚", 1),
+    ("RFloor", "⌊", 1),
+    ("RCeil", "⌈", 1),
+    ("RRound", "⁅", 1),
+    ("RNot", "¬", 1),
+    ("RAbs", "⌵", 1),
+    ("RSign", "±", 1),
+    ("RAdd", "+", 2),
+    ("RSub", "-", 2),
+    ("RMul", "×", 2),
+    ("RDiv", "÷", 2),
+    ("RMin", "↧", 2),
+    ("RMax", "↥", 2),
+];
+
+fn tie_arg(r: &mut Rng, kind: usize, shape: &[usize]) -> Value {
+    let mut v = gen_typed(r, kind, shape, 1);
+    let pre = *r.pick(&["", "", "⍆", "⍆", "⇌⍆", "⇌⍆", "◴⍆", "=0", "⍏", "⊛"]);
+    if !pre.is_empty() {
+        if let Ok(st) = run_uiua_with(pre, &[v.clone()]) {
+            if let Some(x) = st.into_iter().next() {
+                v = x;
+            }
+        }
+    }
+    if r.chance(1, 6) {
+        v = uiua::verif::to_num_storage(&v);
+    }
+    v
+}
+
+fn tie(n: usize, seed: u64) {
+    let mut r = Rng::new(seed ^ 0xC05);
+    let mut k = 0usize;
+    while k < n {
+        let concrete = r.chance(2, 5);
+        let (name, src, nargs) = if concrete { *r.pick(&CONCRETE) } else { *r.pick(&RULES) };
+        let shape = {
+            let mut s = small_shape(&mut r, 3, 3);
+            if s.is_empty() && r.chance(2, 3) {
+                s = vec![1 + r.below(4)];
+            }
+            s
+        };
+        let numeric = matches!(name, "CNeg" | "RWhere" | "RFloor" | "RCeil" | "RRound" | "RNot" | "RAbs" | "RSign" | "RAdd" | "RSub" | "RMul" | "RDiv" | "RMin" | "RMax");
+        let kind = if name == "RWhere" {
+            1
+        } else if matches!(name, "CNeg" | "RAbs" | "RSign") {
+            *r.pick(&[0usize, 1])
+        } else if numeric {
+            *r.pick(&[0usize, 0, 1, 1, 3, 4, 2])
+        } else {
+            r.below(5)
+        };
+        let mut args: Vec<Value> = Vec::new(); // [top, second]
+        if name == "CRange" {
+            args.push(byte(&[], &[*r.pick(&[0u8, 1, 2, 3, 5, 17, 255])]));
+        } else {
+            args.push(tie_arg(&mut r, kind, &shape));
+        }
+        if nargs == 2 {
+            let second = if name == "CCouple" {
+                let mut b = tie_arg(&mut r, kind, &shape);
+                if r.chance(1, 4) {
+                    b = args[0].clone();
+                }
+                b
+            } else {
+                match r.below(4) {
+                    0 | 1 => {
+                        let x = *r.pick(&[0.0, -0.0, 1.0, -1.0, 2.0, 0.5, -2.5, 255.0, 1e300, f64::INFINITY, f64::NEG_INFINITY, f64::NAN]);
+                        if x >= 0.0 && x.fract() == 0.0 && x <= 255.0 && !(x == 0.0 && x.is_sign_negative()) && r.chance(1, 2) { byte(&[], &[x as u8]) } else { num(&[], &[x]) }
+                    }
+                    2 => tie_arg(&mut r, kind, &shape),
+                    _ => {
+                        let k2 = *r.pick(&[0usize, 1]);
+                        tie_arg(&mut r, k2, &shape)
+                    }
+                }
+            };
+            if r.chance(1, 2) {
+                args.push(second);
+            } else {
+                args.insert(0, second);
+            }
+        }
+        if args.iter().any(has_map_deep) {
+            continue;
+        }
+        // stack order: last pushed = top
+        let pushed: Vec<Value> = args.iter().rev().cloned().collect();
+        let out = run_prog(src, &pushed).stack;
+        let argstr = args.iter().map(mv).collect::<Vec<_>>().join(";");
+        let show = format!("{src} {}", args.iter().map(show_short).collect::<Vec<_>>().join(" | "));
+        match (&out, concrete) {
+            (Ok(st), true) if st.len() == 1 => {
+                println!("{{\"k\":\"c\",\"p\":{},\"coq\":{},\"show\":{},\"out\":{}}}", jstr(name), jstr(&format!("CC {name} [{argstr}] (Some {})", mv(&st[0]))), jstr(&show), jstr(&show_short(&st[0])));
+            }
+            (Err(e), true) if !e.starts_with("PANIC") => {
+                println!("{{\"k\":\"c\",\"p\":{},\"coq\":{},\"show\":{},\"out\":{}}}", jstr(name), jstr(&format!("CC {name} [{argstr}] None")), jstr(&show), jstr(e.lines().next().unwrap_or("")));
+            }
+            (Ok(st), false) if st.len() == 1 => {
+                println!("{{\"k\":\"r\",\"p\":{},\"coq\":{},\"show\":{},\"out\":{}}}", jstr(name), jstr(&format!("RC {name} [{argstr}] {}", mv(&st[0]))), jstr(&show), jstr(&show_short(&st[0])));
+            }
+            _ => continue,
+        }
+        k += 1;
+    }
+}
